@@ -329,22 +329,69 @@ pub struct Case<'a> {
     pub mode: Mode,
     /// the object under test holds NaN / inf although it was fitted on finite data
     pub nonfinite: bool,
+    /// ... and its Debug rendering shows NaN inside `feature_log_prob` (the listed MultinomialNB finding)
+    pub nan_flp: bool,
 }
-/// (type, equality clause) pairs that the CURRENT tree violates on models with non-finite stored state fitted on
-/// finite data (reported to the coordinator, undecided): counted as `observed:<type>:nonfinite-state:<clause>`.
-/// Everything else about such models - in particular the same clauses for every other type - is a failure.
-fn nonfinite_observed(tname: &str, oracle: &str) -> bool {
-    // RidgeRegression: `==` ends with `(self.intercept - other.intercept).abs() <= eps`, false when the intercept is
-    // NaN (seen: normalize = true on a column of equal values whose computed std is a rounding residue, e.g. three
-    // rows 0.1: not rejected as constant, coefficients and intercept NaN): the model != itself / its copy / a refit
-    // MultinomialNB: derived `==` on the log-probability table; alpha = 0 and a class whose rows are all zero give
-    // ln(0/0) = NaN, and NaN != NaN
-    matches!(tname, "RidgeRegression" | "MultinomialNB") && matches!(oracle, "self_equality" | "bincode_restored_equal" | "refit_equal")
+/// KNOWN_FINDINGS.txt `id=json-nonfinite-state`: fitted state contains a non-finite float, to_string succeeded,
+/// deserialising that text fails on the null; KMeans and the naive Bayes variants only
+const JSON_NONFINITE_FINDING: &str = "json-nonfinite-state";
+/// KNOWN_FINDINGS.txt `id=multinomialnb-nan-state-not-self-equal`: type MultinomialNB, stored feature_log_prob
+/// contains NaN, only the self / restored / refit equality clauses fail
+const MNB_NAN_FINDING: &str = "multinomialnb-nan-state-not-self-equal";
+/// KNOWN_FINDINGS.txt `id=pca-eq-ignores-mu`: type PCA, training matrices differ, eigenvectors / eigenvalues
+/// identical within the relation's tolerance (`==` true), a probe row transformed differently
+const PCA_MU_FINDING: &str = "pca-eq-ignores-mu";
+fn known_pca_mu(c: &mut Case, rel: &str) {
+    c.out.known(PCA_MU_FINDING, "PCA models fitted on different rows with the same eigenvectors and eigenvalues compare equal although their transforms differ (PartialEq never looks at the stored means mu)");
+    let k = format!("known:{}:{}", PCA_MU_FINDING, rel);
+    c.out.count(&k);
+}
+/// is the ridge case at hand one with alpha = 0 (search / degenerate: the `params` text; sweep: the variant;
+/// explicit input: the `alpha` field)?
+fn ridge_alpha_zero(input: &Value) -> bool {
+    input["params"].as_str().map(|p| p.starts_with("alpha=0 ")).unwrap_or(false) || input["variant"].as_str() == Some("alpha=0") || input["alpha"].as_f64() == Some(0.0)
+}
+/// does the Debug rendering show NaN inside the field `feature_log_prob: [...]`?
+fn debug_has_nan_in_feature_log_prob(dbg: &str) -> bool {
+    let key = "feature_log_prob: [";
+    let start = match dbg.find(key) {
+        Some(i) => i + key.len(),
+        None => return false,
+    };
+    let mut depth = 1i32;
+    let mut end = dbg.len();
+    for (i, ch) in dbg[start..].char_indices() {
+        match ch {
+            '[' => depth += 1,
+            ']' => {
+                depth -= 1;
+                if depth == 0 {
+                    end = start + i;
+                    break;
+                }
+            }
+            _ => {}
+        }
+    }
+    dbg[start..end].contains("NaN")
 }
 impl<'a> Case<'a> {
     fn fail(&mut self, oracle: &str, what: &str) {
-        if self.nonfinite && nonfinite_observed(&self.tname, oracle) {
-            let k = format!("observed:{}:nonfinite-state:{}", self.tname, oracle);
+        if self.nonfinite && self.nan_flp && self.tname == "MultinomialNB" && matches!(oracle, "self_equality" | "bincode_restored_equal" | "refit_equal") {
+            // the listed finding, exact predicate: MultinomialNB, NaN inside the stored feature_log_prob, one of
+            // the self / restored / refit equality clauses
+            self.out.known(MNB_NAN_FINDING, "MultinomialNB with NaN in feature_log_prob (alpha = 0, a class with all-zero counts) does not equal itself, its bincode copy or a refit (derived PartialEq: NaN != NaN)");
+            let k = format!("known:{}:{}", MNB_NAN_FINDING, oracle);
+            self.out.count(&k);
+            return;
+        }
+        if self.nonfinite && self.tname == "RidgeRegression" && ridge_alpha_zero(&self.input) && matches!(oracle, "self_equality" | "bincode_restored_equal" | "refit_equal" | "json_deserialise") {
+            // OBSERVED on the current tree after repair 3eb9aad (reported to the coordinator, undecided): alpha = 0 with the
+            // Cholesky solver on rank-deficient rows (collinear / duplicated columns, e.g. x=[[1,1],[2,2],[3,3]]): the
+            // normal equations are singular, the factorisation does not notice, fit returns Ok with non-finite
+            // coefficients (normalize = true: also a NaN intercept, and `(NaN).abs() <= eps` makes the model unequal to
+            // itself).  With alpha > 0 the system is positive definite: any non-finite ridge model there is a failure.
+            let k = format!("observed:RidgeRegression:nonfinite-state(alpha=0,singular-normal-equations):{}", oracle);
             self.out.count(&k);
             return;
         }
@@ -395,6 +442,7 @@ where
     let nonfinite = dbg0.contains("NaN") || dbg0.contains("inf");
     let was = c.nonfinite;
     c.nonfinite = nonfinite;
+    c.nan_flp = nonfinite && debug_has_nan_in_feature_log_prob(&dbg0);
     if nonfinite {
         c.count("search:nonfinite-state-after-fit-on-finite-data");
     }
@@ -446,9 +494,12 @@ where
         Ok(Ok(s)) => match guard(|| serde_json::from_str::<M>(&s)) {
             Err(p) => c.fail("json_deserialise", &format!("serde_json::from_str panicked: {}", p)),
             Ok(Err(e)) => {
-                if nonfinite {
-                    // serde_json writes NaN / inf as null, which cannot be read back
-                    let k = format!("observed:{}:nonfinite-state:json-not-restorable(serde_json-writes-null)", c.tname);
+                let listed_type = matches!(c.tname.as_str(), "KMeans" | "CategoricalNB" | "BernoulliNB" | "MultinomialNB" | "GaussianNB");
+                if nonfinite && listed_type && s.contains("null") && e.to_string().contains("null") {
+                    // the listed finding, exact predicate: non-finite float in the fitted state, to_string succeeded
+                    // (serde_json wrote null), reading that text back fails on the null; KMeans / naive Bayes only
+                    c.out.known(JSON_NONFINITE_FINDING, "a model with NaN / inf in its fitted state serialises to JSON (null) but cannot be restored from its own JSON");
+                    let k = format!("known:{}:{}", JSON_NONFINITE_FINDING, c.tname);
                     c.out.count(&k);
                 } else {
                     c.fail("json_deserialise", &format!("serde_json::from_str of the model's own JSON: {}", e));
@@ -599,8 +650,8 @@ where
                             eprintln!("PAIRDATA {}", json!({"a": {"x": d.x, "y": d.y}, "b": {"x": d2.x, "y": d2.y}, "queries": d.q}));
                         }
                         known_eps(c, "different-rows-and-targets");
-                    } else if let Some(why) = data_changed_observed(&c.tname, &serde_json::to_value(&m).unwrap_or(Value::Null), &serde_json::to_value(&m3).unwrap_or(Value::Null)) {
-                        c.out.count(&format!("observed:{}:different-rows-and-targets:equal-but-predict-differently({})", c.tname, why));
+                    } else if d.x != d2.x && pca_same_eigen_different_mu(&c.tname, &serde_json::to_value(&m).unwrap_or(Value::Null), &serde_json::to_value(&m3).unwrap_or(Value::Null)) {
+                        known_pca_mu(c, "different-rows-and-targets");
                     } else {
                         if std::env::var("C19_DUMP_PAIR").is_ok() {
                             eprintln!("PAIR {}\nA {}\nB {}\nOA {:?}\nOB {:?}", c.tname, serde_json::to_string(&m).unwrap_or_default(), serde_json::to_string(&m3).unwrap_or_default(), oa, ob);
@@ -913,16 +964,11 @@ fn tolerance_blind_spot<M: Serialize>(c: &Case, a: &M, b: &M) -> bool {
     }
 }
 
-/// DATA changed, equal although predicting differently, on the CURRENT tree, outside the listed findings (reported to
-/// the coordinator, undecided; counted as `observed:<type>:<relation>:...`): PCA's `==` looks at the eigenvectors and
-/// eigenvalues only, so two data sets with the same covariance and different means (seen: two different constant
-/// tables, covariance 0) give equal models whose transforms differ by the centring.
-fn data_changed_observed(tname: &str, a: &Value, b: &Value) -> Option<&'static str> {
-    // (the caller has seen `==` true both ways: eigenvectors and eigenvalues agree under the relation's tolerance)
-    match tname {
-        "PCA" if a["mu"].is_array() && a["mu"] != b["mu"] => Some("same-eigenvectors-and-eigenvalues;mu-not-compared"),
-        _ => None,
-    }
+/// the predicate of the listed finding pca-eq-ignores-mu on the two serialised states (the caller has checked: the
+/// training matrices differ, `==` true both ways - i.e. eigenvectors and eigenvalues agree within the relation's
+/// tolerance - and a probe row is transformed differently): type PCA and the stored means differ
+fn pca_same_eigen_different_mu(tname: &str, a: &Value, b: &Value) -> bool {
+    tname == "PCA" && a["mu"].is_array() && a["mu"] != b["mu"]
 }
 
 /// Same rows and targets, another parameter value, equal although predicting differently: which part of the state
@@ -1035,8 +1081,8 @@ where
                 } else if tolerance_blind_spot(c, m, &mv) {
                     // the listed finding: different rows / targets, all floating-point state within the absolute tolerance
                     known_eps(c, &relkey);
-                } else if let Some(why) = data_changed_observed(&c.tname, &sa, &sb) {
-                    c.out.count(&format!("observed:{}:{}:equal-but-predict-differently({})", c.tname, relkey, why));
+                } else if rows_differ && pca_same_eigen_different_mu(&c.tname, &sa, &sb) {
+                    known_pca_mu(c, &relkey);
                 } else {
                     c.out.count(&format!("fail-detail:related_data_unequal:{}:{}", c.tname, relkey));
                     c.fail(
@@ -2356,7 +2402,7 @@ pub fn run_case_d(out: &mut Out, mode: Mode, kind: &str, case_seed: u64, width: 
     if degenerate {
         input["family"] = json!(DEGEN_FAMILIES[fam]);
     }
-    let mut c = Case { out, tname: kind.to_string(), input, f32m, mode, nonfinite: false };
+    let mut c = Case { out, tname: kind.to_string(), input, f32m, mode, nonfinite: false, nan_flp: false };
     if f32m {
         run_kind::<f32>(&mut c, &mut rng, kind);
     } else {
@@ -2371,7 +2417,7 @@ fn run_explicit(out: &mut Out, inp: &Value) -> bool {
     let y = f64s_from_json(&inp["y"]);
     let q = rows_from_json(&inp["queries"]);
     let kind = inp["kind"].as_str().unwrap_or("").to_string();
-    let mut c = Case { out, tname: kind.clone(), input: inp.clone(), f32m: false, mode: Mode::Search, nonfinite: false };
+    let mut c = Case { out, tname: kind.clone(), input: inp.clone(), f32m: false, mode: Mode::Search, nonfinite: false, nan_flp: false };
     c.out.eval(hash_of(&inp.to_string()), true);
     match kind.as_str() {
         "BernoulliNB" => {
@@ -2387,7 +2433,7 @@ fn run_explicit(out: &mut Out, inp: &Value) -> bool {
             }
             true
         }
-        "eq-absolute-epsilon-pair" => {
+        "eq-absolute-epsilon-pair" | "equal-pair" => {
             // witness of the listed finding eq-absolute-epsilon: two data sets (a, b) with different rows / targets
             // whose fits agree field by field within the relation's absolute tolerance
             let (xa, ya) = (rows_from_json(&inp["a"]["x"]), f64s_from_json(&inp["a"]["y"]));
@@ -2399,9 +2445,8 @@ fn run_explicit(out: &mut Out, inp: &Value) -> bool {
                 if equal && differ && data_differ {
                     if tolerance_blind_spot(c, a, b) {
                         known_eps(c, "corpus-witness");
-                    } else if let Some(why) = data_changed_observed(&c.tname, &serde_json::to_value(a).unwrap_or(Value::Null), &serde_json::to_value(b).unwrap_or(Value::Null)) {
-                        let k = format!("observed:{}:corpus-witness:equal-but-predict-differently({})", c.tname, why);
-                        c.out.count(&k);
+                    } else if pca_same_eigen_different_mu(&c.tname, &serde_json::to_value(a).unwrap_or(Value::Null), &serde_json::to_value(b).unwrap_or(Value::Null)) {
+                        known_pca_mu(c, "corpus-witness");
                     } else {
                         c.fail("different_data_unequal", "corpus pair: models fitted on different rows / targets compare equal although they predict differently, and not because of the absolute tolerance");
                     }
